@@ -518,6 +518,9 @@ func LeafFeat(l *Leaf) string {
 	if isEmptyLL(l) {
 		f += ":empty"
 	}
+	if l.Val == "bin:" {
+		f += ":zero-length"
+	}
 	if strings.HasPrefix(l.Val, "enum:#") || strings.Contains(l.Val, `"enum:#`) {
 		f += ":undefined-enum"
 	}
